@@ -109,6 +109,7 @@ Aux:
 				rest = append(rest, a)
 			}
 		case keyMode:
+			keyArgs := args[ai:]
 			for ai < len(args) {
 				a := args[ai]
 				ai++
@@ -120,7 +121,11 @@ Aux:
 					// Only a &key parameter is bound, a keyword must not
 					// overwrite some other variable of the same name. If
 					// a keyword is given more than once the first counts.
-					if lam.Doc.getKeyArg(string(sym)) != nil && !bound(string(sym)) {
+					if lam.Doc.getKeyArg(string(sym)) == nil {
+						if !lam.Doc.otherKeyAllowed(string(sym), keyArgs) {
+							ProgramPanic(s, depth, "%s is not a keyword parameter of %s.", a, lam)
+						}
+					} else if !bound(string(sym)) {
 						ss.Let(sym, args[ai])
 					}
 					ai++
